@@ -1,6 +1,9 @@
 (* SkipCondProofs.v — the condition compiler agrees with Condition.evaluate on the
    safe region (C11, part 1).  Lemmas only; statements are in props/C11.v. *)
 From DW Require Import PyStr SkipModel.
+
+Lemma pstr_eqb_f : pstr_eqb (S "f") (S "f") = true.
+Proof. reflexivity. Qed.
 From Coq Require Import ZArith Lia.
 
 (* ------------------------------------------------ induction principle for values *)
@@ -144,7 +147,7 @@ Qed.
 
 (* ------------------------------------------------ the compiled test *)
 Definition clo_has (clo : list (name * lval)) (c : cond) (var : name) : Prop :=
-  t_or_f (c_op c) = false -> is_builtin (val (c_val c)) = false ->
+  t_or_f (c_op c) = false -> inlined (c_op c) (val (c_val c)) = false ->
   lookup_name clo var = Some (c_val c).
 
 (* In any environment where o.f is v and the closure entry (if one was requested)
@@ -162,7 +165,7 @@ Proof.
   - destruct op; try discriminate Htf; cbn [eval e_obj]; rewrite Hobj; cbn [apply_cop val fresh truthy];
       reflexivity.
   - cbn [orb] in Hsafe.
-    destruct (is_builtin (val cv)) eqn:Hb; cbn [negb orb fst] in *.
+    destruct (inlined op (val cv)) eqn:Hb; cbn [negb orb fst] in *.
     + apply andb_true_iff in Hsafe. destruct Hsafe as [Hr Hid].
       cbn [eval e_obj]. rewrite Hobj. rewrite (repr_roundtrip _ Hr).
       rewrite (apply_cop_fresh op v cv Hid).
@@ -178,7 +181,7 @@ Proof.
   unfold compile_cond, get_skip_if_condition, finalize_skip_if. cbn [c_op c_val fst].
   destruct (t_or_f op) eqn:Htf.
   - destruct op; try discriminate Htf; reflexivity.
-  - cbn [orb] in Hsafe. destruct (is_builtin (val cv)) eqn:Hb; cbn [negb orb fst] in *.
+  - cbn [orb] in Hsafe. destruct (inlined op (val cv)) eqn:Hb; cbn [negb orb fst] in *.
     + apply andb_true_iff in Hsafe. destruct Hsafe as [Hr _].
       cbn [expr_bad]. exact (repr_not_bad _ Hr).
     + reflexivity.
@@ -195,7 +198,30 @@ Proof.
   rewrite Htf, Hb. cbn [snd lookup_name name_eqb]. reflexivity.
 Qed.
 
-(* The F6 region (unhashable values, non-finite floats) is inside the safe region. *)
+(* What is inlined has a repr that denotes it, and is never tested for identity
+   unless it is a singleton (the F20 repair). *)
+Lemma inlined_denoted : forall op v,
+  inlined op v = true -> repr_ok v = true /\ negb (is_identity_op op) || is_singleton v = true.
+Proof.
+  intros op v H. unfold inlined in H. apply andb_true_iff in H. destruct H as [Hb H].
+  apply orb_true_iff in H. destruct H as [H|H].
+  - destruct v; try discriminate H; split; try reflexivity; apply orb_true_r.
+  - apply andb_true_iff in H. destruct H as [Hid Hp]. rewrite Hid. split; [|reflexivity].
+    destruct v as [| | | |f| | | | |]; try discriminate Hp; try reflexivity.
+    destruct f; try reflexivity; discriminate Hb.
+Qed.
+
+(* Every condition is in the safe region. *)
+Lemma cond_safe_all : forall c, cond_safe c = true.
+Proof.
+  intros [op cv]. unfold cond_safe. cbn [c_op c_val].
+  destruct (t_or_f op); [reflexivity|]. cbn [orb].
+  destruct (inlined op (val cv)) eqn:Hi; [|reflexivity]. cbn [negb orb].
+  destruct (inlined_denoted op (val cv) Hi) as [Hr Hs]. rewrite Hr, Hs. reflexivity.
+Qed.
+
+(* Unhashable values, non-finite floats (the F6 region), opaque objects, tuples, and any
+   non-singleton under `is` / `is not` (the F20 region) go through a closure variable. *)
 Lemma hashable_false_not_builtin : forall v, hashable v = false -> is_builtin v = false.
 Proof.
   intros v H. destruct v; try discriminate H; unfold is_builtin; rewrite H; reflexivity.
@@ -207,17 +233,139 @@ Proof.
   destruct f; try discriminate H; reflexivity.
 Qed.
 
-Lemma f6_region_safe : forall op cv,
-  hashable (val cv) = false \/ nonfinite (val cv) = true -> cond_safe (Cond op cv) = true.
+Lemma closure_region : forall op v,
+  hashable v = false \/ nonfinite v = true \/
+  (exists k i, v = VTok k i) \/ (exists l, v = VTuple l) \/
+  (is_identity_op op = true /\ builtin_singleton v = false) ->
+  inlined op v = false.
 Proof.
-  intros op cv [H|H]; unfold cond_safe; cbn [c_op c_val].
-  - rewrite (hashable_false_not_builtin _ H). cbn [negb]. rewrite orb_true_r. reflexivity.
-  - rewrite (nonfinite_not_builtin _ H). cbn [negb]. rewrite orb_true_r. reflexivity.
+  intros op v [H|[H|[[k [i ->]]|[[l ->]|[Hid Hs]]]]]; unfold inlined.
+  - rewrite (hashable_false_not_builtin _ H). reflexivity.
+  - rewrite (nonfinite_not_builtin _ H). reflexivity.
+  - cbn [builtin_singleton plain_scalar orb]. rewrite andb_false_r. apply andb_false_r.
+  - cbn [builtin_singleton plain_scalar orb]. rewrite andb_false_r. apply andb_false_r.
+  - rewrite Hs, Hid. cbn. apply andb_false_r.
 Qed.
 
-(* Enum members and instances of user classes are bound through the closure too. *)
-Lemma user_token_safe : forall op o k i,
-  (k = KEnum \/ k = KUser) -> cond_safe (Cond op (LV o (VTok k i))) = true.
+
+(* ------------------------------------------------ the compiled test in any environment *)
+Fixpoint eval_dict (en : env) (kvs : list (expr * expr)) : res (list (value * value)) :=
+  match kvs with
+  | [] => Ok []
+  | (k, a) :: r =>
+      match eval en k with
+      | Ok kx => match eval en a with
+                 | Ok x => match eval_dict en r with Ok xs => Ok ((val kx, val x) :: xs) | Err er => Err er end
+                 | Err er => Err er
+                 end
+      | Err er => Err er
+      end
+  end.
+
+Lemma eval_listd : forall en es,
+  eval en (EListD es) = match eval_list en es with Ok xs => Ok (fresh (VList xs)) | Err er => Err er end.
 Proof.
-  intros op o k i [-> | ->]; unfold cond_safe; cbn; rewrite orb_true_r; reflexivity.
+  intros en es. cbn [eval].
+  assert (H : (fix go (es : list expr) : res (list value) :=
+               match es with
+               | [] => Ok []
+               | a :: r => match eval en a with
+                           | Ok x => match go r with Ok xs => Ok (val x :: xs) | Err er => Err er end
+                           | Err er => Err er
+                           end
+               end) es = eval_list en es).
+  { induction es as [|a r IH]; [reflexivity|]. cbn [eval_list]. rewrite <- IH. reflexivity. }
+  rewrite H. reflexivity.
 Qed.
+
+Lemma eval_dictd : forall en kvs,
+  eval en (EDictD kvs) = match eval_dict en kvs with Ok xs => Ok (fresh (VDict xs)) | Err er => Err er end.
+Proof.
+  intros en kvs. cbn [eval].
+  assert (H : (fix go (kvs : list (expr * expr)) : res (list (value * value)) :=
+               match kvs with
+               | [] => Ok []
+               | (k, a) :: r =>
+                   match eval en k with
+                   | Ok kx => match eval en a with
+                              | Ok x => match go r with Ok xs => Ok ((val kx, val x) :: xs) | Err er => Err er end
+                              | Err er => Err er
+                              end
+                   | Err er => Err er
+                   end
+               end) kvs = eval_dict en kvs).
+  { induction kvs as [|[k a] r IH]; [reflexivity|]. cbn [eval_dict]. rewrite <- IH. reflexivity. }
+  rewrite H. reflexivity.
+Qed.
+
+Lemma repr_expr_list : forall l, repr_expr (VList l) = EListD (map repr_expr l).
+Proof. intros l. reflexivity. Qed.
+
+Lemma repr_expr_dict : forall l,
+  repr_expr (VDict l) = EDictD (map (fun kv => (repr_expr (fst kv), repr_expr (snd kv))) l).
+Proof.
+  intros l. cbn [repr_expr]. f_equal.
+  induction l as [|[k x] r IH]; [reflexivity|]. cbn [map fst snd]. rewrite <- IH. reflexivity.
+Qed.
+
+(* the inlined text mentions no variable of the generated function: its value
+   (or error) is the same in every environment *)
+Lemma repr_env_indep : forall v en en', eval en (repr_expr v) = eval en' (repr_expr v).
+Proof.
+  induction v using value_ind'; intros en en'; try reflexivity.
+  - cbn [repr_expr]. destruct (z <? 0)%Z; reflexivity.
+  - destruct f as [| [|] | | m e]; try reflexivity.
+    cbn [repr_expr]. destruct (m <? 0)%Z; reflexivity.
+  - rewrite repr_expr_tuple, !eval_tuple.
+    assert (Hl : eval_list en (map repr_expr l) = eval_list en' (map repr_expr l)).
+    { induction H as [|x r Px _ IH]; [reflexivity|].
+      cbn [map eval_list]. rewrite (Px en en'), IH. reflexivity. }
+    rewrite Hl. reflexivity.
+  - rewrite repr_expr_list, !eval_listd.
+    assert (Hl : eval_list en (map repr_expr l) = eval_list en' (map repr_expr l)).
+    { induction H as [|x r Px _ IH]; [reflexivity|].
+      cbn [map eval_list]. rewrite (Px en en'), IH. reflexivity. }
+    rewrite Hl. reflexivity.
+  - rewrite repr_expr_dict, !eval_dictd.
+    assert (Hl : eval_dict en (map (fun kv => (repr_expr (fst kv), repr_expr (snd kv))) l) =
+                 eval_dict en' (map (fun kv => (repr_expr (fst kv), repr_expr (snd kv))) l)).
+    { induction H as [|[k x] r [Pk Px] _ IH]; [reflexivity|].
+      cbn [map eval_dict fst snd] in *. rewrite (Pk en en'), (Px en en'), IH. reflexivity. }
+    rewrite Hl. reflexivity.
+Qed.
+
+(* the meaning of the generated text (text_sem) is the same for every attribute name, closure variable name,
+   frame and surrounding closure (no safety assumption) *)
+Lemma compile_cond_text_sem : forall c var f v obj clo fr,
+  lookup_str obj f = Some v -> clo_has clo c var ->
+  eval_test (Env obj clo fr) (fst (compile_cond c var f)) = text_sem c v.
+Proof.
+  intros [op cv] var f v obj clo fr Hobj Hclo.
+  unfold clo_has in Hclo. cbn [c_op c_val] in *.
+  unfold text_sem, compile_cond, get_skip_if_condition, finalize_skip_if, eval_test. cbn [c_op c_val fst snd].
+  destruct (t_or_f op) eqn:Htf.
+  - destruct op; try discriminate Htf; cbn [eval e_obj lookup_str fst snd]; rewrite Hobj;
+      rewrite pstr_eqb_f; reflexivity.
+  - destruct (inlined op (val cv)) eqn:Hb; cbn [fst snd].
+    + cbn [eval e_obj lookup_str]. rewrite Hobj, pstr_eqb_f.
+      rewrite (repr_env_indep (val cv) (Env obj clo fr) (Env [(S "f", v)] [] [])). reflexivity.
+    + cbn [eval e_obj e_clo lookup_str lookup_name name_eqb]. rewrite Hobj, pstr_eqb_f.
+      rewrite (Hclo eq_refl eq_refl). reflexivity.
+Qed.
+
+Lemma compiled_sem_text : forall c v,
+  compiled_sem c v = if expr_bad (fst (compile_cond c NSkipValue (S "f"))) then Err SyntaxError else text_sem c v.
+Proof. intros. reflexivity. Qed.
+
+Lemma text_sem_correct : forall c v, cond_safe c = true -> text_sem c v = evaluate c v.
+Proof.
+  intros c v Hs. pose proof (compiled_sem_correct c v Hs) as H.
+  rewrite compiled_sem_text, (compile_cond_not_bad c NSkipValue (S "f") Hs) in H. exact H.
+Qed.
+
+(* unconditional forms *)
+Lemma compiled_sem_evaluate : forall c v, compiled_sem c v = evaluate c v.
+Proof. intros c v. apply compiled_sem_correct. apply cond_safe_all. Qed.
+
+Lemma text_sem_evaluate : forall c v, text_sem c v = evaluate c v.
+Proof. intros c v. apply text_sem_correct. apply cond_safe_all. Qed.
